@@ -24,6 +24,9 @@ pub enum ProgSpec {
 pub enum Mode {
     Run,
     Step { max_steps: u64 },
+    /// single-stepping with a caller-supplied instruction cache that is not the set's own
+    /// (step() takes any cache): 0 = empty list, 1 = names the set does not know mixed in
+    StepForeignCache { max_steps: u64, kind: u8 },
 }
 
 #[derive(Serialize, Deserialize, Clone, Debug, PartialEq)]
@@ -74,12 +77,15 @@ pub fn generate(seed: u64, instrs: &[String]) -> WorldSc {
         1 => ProgSpec::Explicit(grammar_program(&mut pr, &ctx)),
         _ => ProgSpec::Explicit(family_program(&mut pr, &ctx)),
     };
-    let mode = if r.chance(1, 2) {
-        Mode::Run
-    } else {
-        Mode::Step {
+    let mode = match r.below(8) {
+        0..=3 => Mode::Run,
+        4..=6 => Mode::Step {
             max_steps: *r.pick(&[50u64, 300, 1500]),
-        }
+        },
+        _ => Mode::StepForeignCache {
+            max_steps: *r.pick(&[50u64, 300]),
+            kind: r.below(2) as u8,
+        },
     };
     // fault subset (swarm): about a third of the runs are fault free
     let mut env = EnvScript::quiet(seed);
@@ -271,9 +277,20 @@ pub fn execute(sc: &WorldSc, iset: &mut InstructionSet, names: &[String], envelo
                 let o = PushInterpreter::run(&mut st, iset);
                 format!("{:?}", o)
             }),
-            Mode::Step { max_steps } => caught(|| {
+            Mode::Step { max_steps } | Mode::StepForeignCache { max_steps, .. } => caught(|| {
                 PushInterpreter::copy_to_code_stack(&mut st);
-                let cache = iset.cache();
+                let cache = match sc.mode {
+                    Mode::StepForeignCache { kind: 0, .. } => pushr::push::instructions::InstructionCache::new(vec![]),
+                    Mode::StepForeignCache { .. } => {
+                        let mut l = iset.cache().list;
+                        l.sort();
+                        l.truncate(40);
+                        l.push("NOT.REGISTERED".to_string());
+                        l.push("ALSO.MISSING".to_string());
+                        pushr::push::instructions::InstructionCache::new(l)
+                    }
+                    _ => iset.cache(),
+                };
                 let mut done = false;
                 while steps < max_steps {
                     if PushInterpreter::step(&mut st, iset, &cache) {
